@@ -11,6 +11,7 @@ From Coq Require Import List NArith Bool Strings.Byte.
 From Sftp Require Import Base.GoSem Wire.Prim Wire.Packets Path.Clean Err.Status Srv.ReadOnly Srv.OpenFlags
                          Proofs.CleanP Proofs.StatusP Proofs.OpenFlagsP Fs.Tree Proofs.TreeP.
 Import ListNotations.
+From Sftp Require Proofs.TreeRenameP.
 Open Scope N_scope.
 
 (* ok / not-exist / permission / EOF / other failure: the category of every error package os can return, bare or inside
@@ -132,4 +133,65 @@ Example C05_tree_nonvacuous :
   FsTree.c_mkdirall 3 t [5; 1]%nat = Some (FsTree.TOther, t) /\
   FsTree.c_removeall 6 t [1]%nat = Some (FsTree.TOk, [([5], FsTree.KFile)])%nat /\
   FsTree.c_removeall 6 t [1; 4; 2]%nat = None.
+Proof. vm_compute. repeat split; reflexivity. Qed.
+
+(* ---- Rename, PosixRename, Link, Symlink in the name-space model (Fs/Tree.v p_rename / p_link / p_symlink; the os-backed server
+   answers both rename requests with os.Rename). MODELLED: os.Rename / os.Link / os.Symlink themselves are the model's
+   definitions, tied on every run to what package os did to the twin tree (kind fsspec) and to what the Client did to the served
+   tree (kind fsop); file identity (two names of one file) and permissions are not in the model. ---- *)
+
+(* a successful rename to another name: the tree stays well formed, the whole subtree is found under the new name with the
+   kinds it had, everything outside the two names is untouched *)
+Theorem C05_rename_moves_the_subtree : forall t s d t', FsTree.wf t -> FsTree.p_rename t s d = Some (FsTree.TOk, t') -> s <> d ->
+  FsTree.wf t' /\
+  (forall r, FsTree.kind_at t' (d ++ r) = FsTree.kind_at t (s ++ r)) /\
+  (forall q, FsTree.under s q = false -> FsTree.under d q = false -> FsTree.kind_at t' q = FsTree.kind_at t q).
+Proof. exact TreeRenameP.rename_ok. Qed.
+Print Assumptions C05_rename_moves_the_subtree.
+
+(* a failing rename, link or symlink changes nothing *)
+Theorem C05_failed_rename_link_symlink_change_nothing :
+  (forall t s d c t', FsTree.p_rename t s d = Some (c, t') -> c <> FsTree.TOk -> t' = t) /\
+  (forall t s d c t', FsTree.p_link t s d = Some (c, t') -> c <> FsTree.TOk -> t' = t) /\
+  (forall e t l c t', FsTree.p_symlink e t l = Some (c, t') -> c <> FsTree.TOk -> t' = t).
+Proof. exact (conj TreeRenameP.rename_fail_same (conj TreeRenameP.link_fail_same TreeRenameP.symlink_fail_same)). Qed.
+Print Assumptions C05_failed_rename_link_symlink_change_nothing.
+
+(* a successful link adds exactly one entry of the source's kind (never a directory) at a name that was free; a successful
+   symlink adds exactly one link entry at a name that was free; both keep the tree well formed *)
+Theorem C05_link_adds_one_entry : forall t s d t', FsTree.wf t -> FsTree.p_link t s d = Some (FsTree.TOk, t') ->
+  exists k, FsTree.kind_at t s = Some k /\ k <> FsTree.KDir /\ FsTree.kind_at t d = None /\ t' = t ++ [(d, k)] /\ FsTree.wf t'.
+Proof. exact TreeRenameP.link_ok. Qed.
+Print Assumptions C05_link_adds_one_entry.
+
+Theorem C05_symlink_adds_one_entry : forall e t l t', FsTree.wf t -> FsTree.p_symlink e t l = Some (FsTree.TOk, t') ->
+  e = false /\ FsTree.kind_at t l = None /\ t' = t ++ [(l, FsTree.KLink)] /\ FsTree.wf t'.
+Proof. exact TreeRenameP.symlink_ok. Qed.
+Print Assumptions C05_symlink_adds_one_entry.
+
+(* ANY sequence over the whole set of modelled operations (the five above and Rename, PosixRename, Link, Symlink): every tree
+   on the way is well formed and the Client's way of doing them gives package os's outcomes and tree, step for step *)
+Theorem C05_all_sequences_stay_well_formed : forall ops t cs t', FsTree.wf t ->
+  TreeRenameP.run_ops2 TreeRenameP.os_op2 t ops = Some (cs, t') -> FsTree.wf t'.
+Proof. exact TreeRenameP.run_ops2_wf. Qed.
+Print Assumptions C05_all_sequences_stay_well_formed.
+
+Theorem C05_all_client_sequences_refine_os : forall ops t r, FsTree.wf t ->
+  TreeRenameP.run_ops2 TreeRenameP.os_op2 t ops = Some r -> TreeRenameP.run_ops2 TreeRenameP.client_op2 t ops = Some r.
+Proof. exact TreeRenameP.client_sequences2_refine_os. Qed.
+Print Assumptions C05_all_client_sequences_refine_os.
+
+(* rename(2) alone is not what the server does: package os refuses a directory as the new name, also an empty one *)
+Theorem C05_rename_onto_empty_directory_refuted : exists t s d,
+  FsTree.wf t /\ FsTree.sys_rename t s d = Some (FsTree.TOk, [(d, FsTree.KDir)]) /\ FsTree.p_rename t s d = Some (FsTree.TOther, t).
+Proof. exact TreeRenameP.rename_onto_empty_dir_refuted. Qed.
+Print Assumptions C05_rename_onto_empty_directory_refuted.
+
+Example C05_rename_nonvacuous :
+  let t := [([1], FsTree.KDir); ([1; 2], FsTree.KDir); ([1; 2; 3], FsTree.KFile); ([1; 4], FsTree.KLink); ([5], FsTree.KFile)]%nat in
+  FsTree.p_rename t [1; 2]%nat [6]%nat = Some (FsTree.TOk, [([1], FsTree.KDir); ([6], FsTree.KDir); ([6; 3], FsTree.KFile); ([1; 4], FsTree.KLink); ([5], FsTree.KFile)])%nat /\
+  FsTree.p_rename t [1]%nat [1; 2; 7]%nat = Some (FsTree.TOther, t) /\
+  FsTree.p_rename t [5]%nat [1; 4]%nat = Some (FsTree.TOk, [([1], FsTree.KDir); ([1; 2], FsTree.KDir); ([1; 2; 3], FsTree.KFile); ([1; 4], FsTree.KFile)])%nat /\
+  FsTree.p_rename t [5]%nat [1; 4; 9]%nat = None /\
+  FsTree.p_link t [1; 4]%nat [8]%nat = Some (FsTree.TOk, t ++ [([8], FsTree.KLink)])%nat.
 Proof. vm_compute. repeat split; reflexivity. Qed.
